@@ -99,6 +99,13 @@ EXPRESSION_PATTERN = re.compile(
     r"^[A-Za-z_][A-Za-z0-9_.\-]*(?<!-)([" + _UNICODE_OPS + r"][A-Za-z_][A-Za-z0-9_.\-]*(?<!-))+\Z"
 )
 
+# A value (or an operator-separated segment of an expression value) that begins with a
+# reserved word followed by a non-word character ("true.x", "null-a", "vs<x>") would be
+# re-lexed as that reserved literal/operator plus trailing text, because the lexer's
+# \btrue\b / \bfalse\b / \bnull\b / \bvs\b patterns run before identifier scanning.
+_RESERVED_LEAD_PATTERN = re.compile(r"(?:true|false|null|vs)(?![A-Za-z0-9_])")
+_SEGMENT_SPLIT_PATTERN = re.compile("[" + _UNICODE_OPS + "]")
+
 
 def _sort_children_by_key(children: list[Any]) -> list[Any]:
     """Sort AST children by key for key_sorting option.
@@ -141,6 +148,8 @@ def needs_quotes(value: Any) -> bool:
     # Reserved words need quotes to avoid becoming literals or operators
     # This includes boolean/null literals and operator keywords
     if value in ("true", "false", "null", "vs"):
+        return True
+    if any(_RESERVED_LEAD_PATTERN.match(segment) for segment in _SEGMENT_SPLIT_PATTERN.split(value)):
         return True
 
     # Issue #181: Variables ($VAR, $1:name) don't need quotes
